@@ -21,7 +21,7 @@ from .. import gen, probes, simray
 from ..core import Check, jdigest, result_template
 from ..oracles import geom, visibility
 from ..run import cleanup, history_digest, wrap_method
-from .common import drive, generic_shrinks, interleaving_key, raised_in_harness, time_info, variant
+from .common import drive, generic_shrinks, interleaving_key, over, raised_in_harness, time_info, variant
 
 MEAS_TOL = {"azimuth_rad": 1e-7, "elevation_rad": 1e-7, "range_km": 1e-6, "range_rate_km_p_sec": 1e-9}
 
@@ -220,11 +220,11 @@ class C02(Check):
                         d = abs(geom.wrap_pi(val - ref)) if lab == "azimuth_rad" else abs(val - ref)
                         if noise_off:
                             max_meas[lab] = max(max_meas.get(lab, 0.0), d)
-                            if d > MEAS_TOL[lab]:
+                            if over(d, MEAS_TOL[lab]):
                                 viol.append({"clause": "measurement-differs-from-geometry", "key": lab, "detail": f"{where}: noise-free {lab} of target {o['target']} is {val!r}, true geometry gives {ref!r} (difference {d:.3e})"})
                         else:
                             sig = math.sqrt(sen["r_diag"][sen["labels"].index(lab)])
-                            if d > 8 * sig + MEAS_TOL[lab]:
+                            if over(d, 8 * sig + MEAS_TOL[lab]):
                                 viol.append({"clause": "measurement-outside-stated-noise", "key": lab, "detail": f"{where}: {lab} of target {o['target']} deviates {d:.3e} from the true geometry, stated sigma {sig:.3e}"})
                     if abs(v["measurement"]["azimuth_rad"]) < math.radians(1) or abs(v["measurement"]["azimuth_rad"] - 2 * math.pi) < math.radians(1):
                         cnt["observations_within_1deg_of_azimuth_seam"] = cnt.get("observations_within_1deg_of_azimuth_seam", 0) + 1
